@@ -167,6 +167,20 @@ def polym_trace(pm, nums, start, max_iter=2000):
     return back, flips, conv, it
 
 
+def dress(rng, prof):
+    """integer dress of a profile of pure actions / mixed-action arrays: the same profile with its pure actions given as Python
+    ints or NumPy integer scalars of several widths, in a tuple, a list or (all pure) one integer ndarray. Returns (dressed, label)."""
+    kind = rng.choice(["int", "int64", "int32", "intp", "uint8", "ndarray", "list-int64", "unravel"])
+    pure = all(not hasattr(a, "__len__") for a in prof)
+    conv = {"int": int, "int64": np.int64, "int32": np.int32, "intp": np.intp, "uint8": np.uint8}.get(kind, np.int64)
+    if kind == "ndarray" and pure:
+        return np.array([int(a) for a in prof]), "ndarray"
+    if kind == "unravel" and pure:
+        return np.unravel_index(0, (1,) * len(prof))[:0] + tuple(np.int64(a) for a in prof), "tuple-of-np.int64(unravel-like)"
+    out = [a if hasattr(a, "__len__") else conv(a) for a in prof]
+    return (list(out) if kind.startswith("list") else tuple(out)), ("list:" if kind.startswith("list") else "tuple:") + conv.__name__
+
+
 def run(ctx):
     import quantecon as qe
     from quantecon.game_theory import NormalFormGame, Player, mclennan_tourky, PolymatrixGame, polym_lcp_solver
@@ -401,26 +415,32 @@ def run(ctx):
             inits = [tuple(rng.randrange(n) for n in nums) for _k in range(2)] + [None]
             w = [[rng.randrange(1, 6) for _a in range(n)] for n in nums]
             inits.append(tuple(np.array([x / sum(ws) for x in ws]) for ws in w))
+            # pure actions for some players, mixed-action arrays for the others
+            inits.append(tuple((rng.randrange(nums[i]) if rng.random() < 0.5 else inits[-1][i]) for i in range(N)))
             for init in inits:
                 for eps in (1e-2, 1e-3, 1e-4):
-                    NE, res = mclennan_tourky(g, init=init, epsilon=eps, max_iter=rng.choice([200, 200, 10, 25]), full_output=True)
+                    init_call, dlabel = (None, "default") if init is None else dress(rng, init)
+                    ctx.count("mclennan_tourky:init-dress=%s" % dlabel)
+                    NE, res = mclennan_tourky(g, init=init_call, epsilon=eps, max_iter=rng.choice([200, 200, 10, 25]), full_output=True)
                     if int(res.num_iter) <= 25 and len(mt_cases) < (600 if thorough else 90):
                         flats = [[float(v) for v in g.players[i].payoff_array.ravel()] for i in range(N)]
                         ini = (0,) * N if init is None else init
                         x_init = []
                         for i_, a_ in enumerate(ini):
-                            x_init += ([1.0 if k_ == a_ else 0.0 for k_ in range(nums[i_])] if isinstance(a_, int) else [float(v) for v in a_])
+                            x_init += ([1.0 if k_ == a_ else 0.0 for k_ in range(nums[i_])] if not hasattr(a_, "__len__") else [float(v) for v in a_])
                         mt_cases.append(tup(flist2(flats), natlist(nums), flist(x_init), fl(eps), fl(float(g.players[0].tol)), zl(int(res.max_iter)),
                                             tup(zl(0), flist([float(v) for a_ in NE for v in a_]), blit(bool(res.converged)), zl(int(res.num_iter)))))
                         mt_meta.append(({"solver": "mclennan_tourky", "nums_actions": nums, "payoffs": arr.tolist(), "epsilon": eps,
                                          "init": x_init, "max_iter": int(res.max_iter)},
                                         ([x.tolist() for x in NE], bool(res.converged), int(res.num_iter))))
                     inp = {"solver": "mclennan_tourky", "nums_actions": nums, "payoffs": arr.tolist(), "epsilon": eps,
-                           "init": None if init is None else [x.tolist() if hasattr(x, "tolist") else x for x in init], "max_iter": int(res.max_iter)}
+                           "init": None if init is None else [x.tolist() if hasattr(x, "tolist") else x for x in init], "init_dress": dlabel,
+                           "max_iter": int(res.max_iter)}
                     ctx.case(("mt", nums, arr.tolist(), str(inp["init"]), eps, int(res.max_iter)), nontrivial=True,
                              sample={"call": {k: inp[k] for k in ("nums_actions", "epsilon", "init")}, "impl": [[x.tolist() for x in NE], bool(res.converged), int(res.num_iter)]})
                     ctx.count("mclennan_tourky:N=%d:%s" % (N, "converged" if res.converged else "not-converged"))
-                    ctx.count("mclennan_tourky:init=%s" % ("default" if init is None else "mixed" if hasattr(init[0], "tolist") else "pure"))
+                    ctx.count("mclennan_tourky:init=%s" % ("default" if init is None else "mixed" if all(hasattr(a, "tolist") for a in init)
+                                                           else "pure" if not any(hasattr(a, "tolist") for a in init) else "pure+mixed"))
                     if not res.converged:
                         continue
                     prof = [[F(x) for x in a] for a in NE]
@@ -512,7 +532,9 @@ def run(ctx):
             inp = {"solver": "polym_lcp_solver", "nums_actions": nums, "polymatrix": {"%d,%d" % k: v.tolist() for k, v in pm.items()},
                    "start": list(start), "max_iter": PL_MAX, "origin": origin, "backtracks": back, "flipped_pair": flips}
             try:
-                NE, res = polym_lcp_solver(pg, starting_player_actions=list(start), max_iter=PL_MAX, full_output=True)
+                start_call, dlabel = dress(rng, start)
+                ctx.count("polym_lcp_solver:start-dress=%s" % dlabel)
+                NE, res = polym_lcp_solver(pg, starting_player_actions=start_call, max_iter=PL_MAX, full_output=True)
             except Exception as e:
                 ctx.case(("polym", nums, inp["polymatrix"], start), nontrivial=True)
                 ctx.count("polym_lcp_solver:exception")
